@@ -520,6 +520,60 @@ fn run_replay_child(path: &str) -> (ReplayOutcome, String) {
     }
 }
 
+/// ddmin over the events of a trace whose replay kills the process (or hangs): every candidate is
+/// executed in a child process; "still crashes" is the predicate.
+fn shrink_crash(v: &Value, tmp: &str) -> Value {
+    let mut best = v.clone();
+    let crashes = |cand: &Value, n: &mut u32| -> bool {
+        *n += 1;
+        let path = format!("{}/crash-cand.json", tmp);
+        let mut t = cand["trace"].clone();
+        t["expect"] = json!({"property": cand["property"], "oracle": cand["oracle"], "op": "?", "class": "crash"});
+        if std::fs::write(&path, serde_json::to_string(&t).unwrap()).is_err() {
+            return false;
+        }
+        matches!(run_replay_child(&path).0, ReplayOutcome::Crashed)
+    };
+    let mut tests = 0u32;
+    let events = |x: &Value| x["trace"]["events"].as_array().cloned().unwrap_or_default();
+    if !crashes(&best, &mut tests) {
+        return best; // not reproducible as a crash: leave as is (the confirmation step decides)
+    }
+    let mut chunk = (events(&best).len() / 2).max(1);
+    while tests < 400 {
+        let mut i = 0;
+        let mut progressed = false;
+        loop {
+            let ev = events(&best);
+            if i >= ev.len() || tests >= 400 {
+                break;
+            }
+            let mut ne = ev.clone();
+            let end = (i + chunk).min(ne.len());
+            ne.drain(i..end);
+            let mut cand = best.clone();
+            cand["trace"]["events"] = Value::Array(ne);
+            if crashes(&cand, &mut tests) {
+                best = cand;
+                progressed = true;
+            } else {
+                i += chunk;
+            }
+        }
+        if chunk == 1 && !progressed {
+            break;
+        }
+        chunk = (chunk / 2).max(1);
+    }
+    best["shrink_tests"] = json!(tests);
+    best["detail"] = json!(format!(
+        "{} [minimised to {} events by re-executing candidates in child processes]",
+        best["detail"].as_str().unwrap_or(""),
+        events(&best).len()
+    ));
+    best
+}
+
 fn load_known(path: &str) -> Vec<Value> {
     std::fs::read_to_string(path)
         .ok()
@@ -711,8 +765,6 @@ fn check(args: &[String]) -> i32 {
             }
         }
     }
-    let _ = std::fs::remove_dir_all(&tmp);
-
     // ---- violations: dedupe, write replay, confirm in a fresh process ------------------------
     let known = load_known(&known_path);
     let mut seen: BTreeSet<String> = BTreeSet::new();
@@ -742,6 +794,14 @@ fn check(args: &[String]) -> i32 {
             ));
             continue;
         }
+        let shrunk;
+        let v = if v.get("class").and_then(|c| c.as_str()) == Some("crash") {
+            let _ = std::fs::create_dir_all(&tmp);
+            shrunk = shrink_crash(v, &tmp);
+            &shrunk
+        } else {
+            v
+        };
         let path = write_replay(&replay_dir, &prop, v);
         let (outc, _) = run_replay_child(&path);
         match outc {
@@ -765,6 +825,7 @@ fn check(args: &[String]) -> i32 {
             }
         }
     }
+    let _ = std::fs::remove_dir_all(&tmp);
     let wall = start.elapsed().as_secs_f64();
 
     // ---- evidence ---------------------------------------------------------------------------
